@@ -198,6 +198,39 @@ def run(tier, seed):
     states += re_.distinct
     trans += re_.generated
     for x in re_.records:
+        if "pix" in x:
+            # whole pixels, integer typed, in every container; centre in quarter pixels
+            cy, cz = x["cen"][0] / 4.0, x["cen"][1] / 4.0
+            px, pz = x["pix"]
+            if not x["inrange"]:
+                continue
+            want_r = math.sqrt(x["r2"]) / 4.0
+            for how, coor in (("list of ints", [px, pz]), ("integer array", np.array([px, pz])), ("float array", np.array([px, pz], dtype=float)),
+                              ("int32 array", np.array([px, pz], dtype=np.int32))):
+                desc = {"pixel": [px, pz], "given_as": how, "centre": [cy, cz]}
+                v.case(("pix", px, pz, tuple(x["cen"]), how), sample=desc if len(v.samples) < 7 and how == "integer array" else None)
+                try:
+                    keep = np.array(coor).copy()
+                    (eta, rad), m_ = L.twice(detector.detyz_to_eta_and_radpix, coor, cy, cz)
+                    if m_:
+                        v.violation(m_, desc)
+                    if not np.array_equal(np.array(coor), keep):
+                        v.violation("detyz_to_eta_and_radpix changes the position it is given", desc)
+                except Exception as ex:
+                    v.violation("detyz_to_eta_and_radpix raised %r for pixel %s given as %s" % (ex, [px, pz], how), desc)
+                    continue
+                # exact offsets (quarters): dety - cy = -r sin(eta), detz - cz = r cos(eta)
+                oy, oz = x["offy"] / 4.0, x["offz"] / 4.0
+                if abs(rad - want_r) > 1e-9 * want_r or abs(-rad * math.sin(math.radians(eta)) - oy) > 1e-7 * want_r or \
+                        abs(rad * math.cos(math.radians(eta)) - oz) > 1e-7 * want_r or not (0 <= eta <= 360):
+                    v.violation("detyz_to_eta_and_radpix(%s given as %s, centre %s) = (%r, %r); the pixel is at offset (%s, %s) from the centre, "
+                                "radius %.9f" % ([px, pz], how, [cy, cz], eta, rad, oy, oz, want_r), desc)
+                    continue
+                rt = detector.eta_and_radpix_to_detyz(eta, rad, cy, cz)
+                if abs(rt[0] - px) > 1e-9 * max(1.0, abs(px)) + 1e-9 * want_r or abs(rt[1] - pz) > 1e-9 * max(1.0, abs(pz)) + 1e-9 * want_r:
+                    v.violation("(dety,detz) -> (eta,radius) -> (dety,detz) round trip moves the pixel %s (given as %s) to %s" %
+                                ([px, pz], how, list(map(float, rt))), desc)
+            continue
         c, s, d, rr = x["c"], x["s"], x["d"], x["r"] / float(x["rd"])
         cy, cz = x["cen"][0] / 4.0, x["cen"][1] / 4.0
         dety, detz = x["dety"] / x["den"], x["detz"] / x["den"]
